@@ -10,5 +10,6 @@ INVARIANT PlainClean
 INVARIANT CodesRight
 INVARIANT ResetAtEnd
 INVARIANT NoError
+INVARIANT AllKnown
 INVARIANT StackRestored
 INVARIANT EmitA
